@@ -75,7 +75,7 @@ def differential(case, dialect="sqlite", fmt=None):
             info,
         )
     if qerr is not None:
-        if dialect == "pg" and engines.surrogate_cannot_run(qerr):
+        if engines.engine_limit(qerr) or (dialect == "pg" and engines.surrogate_cannot_run(qerr)):
             info["surrogate_cannot_run"] = str(qerr)[:200]
             return None, info
         return (
